@@ -51,6 +51,7 @@ fn opts(i: usize) -> Options { if i == 0 { Options::default() } else { Options::
 fn cases(ob: &str) -> Vec<String> {
     let mut out = vec![];
     if let Some(seed) = crate::gen::thorough_seed(ob) { for t in crate::gen::texts(seed ^ 6, crate::gen::scale(ob, 200), true) { for oi in 0..2 { out.push(format!("samex:{}:{}", crate::hex(t.as_bytes()), oi)); out.push(format!("failx:{}:{}", crate::hex(t.as_bytes()), oi)); } } }
+    if cfg!(feature = "with-serde") { out.push("serde:0:0".into()); }
     for (ci, _) in corpus().iter().enumerate() {
         for oi in 0..2 {
             out.push(format!("same:{}:{}", ci, oi));
@@ -60,7 +61,43 @@ fn cases(ob: &str) -> Vec<String> {
     out
 }
 
+/// the serde companion crate's reading entry points present a read failure as an I/O-category error carrying it, a truncated text as EOF
+#[cfg(feature = "with-serde")]
+fn serde_case() -> Option<String> {
+    use serde_lexpr::error::Category;
+    for text in ["(1 2 3)", "  (10 20 30 40)", "(1 2 ; c\n 3)"] {
+        for k in 0..text.len() {
+            for kind in [io::ErrorKind::ConnectionReset, io::ErrorKind::UnexpectedEof, io::ErrorKind::Other] {
+                let rd = Sched { data: text.as_bytes().to_vec(), pos: 0, chunk: 2, interrupt_every: 3, calls: 0, fail_at: Some(k), fail_kind: kind };
+                match serde_lexpr::from_reader::<Vec<u32>>(rd) {
+                    Ok(v) => return Some(format!("serde_lexpr::from_reader on {:?} with a read error at offset {}: Ok({:?})", text, k, v)),
+                    Err(e) => {
+                        if e.classify() != Category::Io { return Some(format!("serde_lexpr::from_reader on {:?} with a read error of kind {:?} at offset {}: category {:?} ({})", text, kind, k, e.classify(), e)); }
+                        let got = io::Error::from(e).kind();
+                        if got != kind { return Some(format!("serde_lexpr::from_reader on {:?} with a read error of kind {:?} at offset {}: converts to io::Error of kind {:?}", text, kind, k, got)); }
+                    }
+                }
+            }
+            match serde_lexpr::from_reader::<Vec<u32>>(&text.as_bytes()[..k]) {
+                Err(e) if e.classify() == Category::Eof => {}
+                Ok(_) if k == 0 => {}
+                other => if !text[..k].trim().is_empty() { return Some(format!("serde_lexpr::from_reader on the truncated text {:?}: {:?}", &text[..k], other.map_err(|e| (e.classify(), e.to_string())))); },
+            }
+        }
+        for r in [serde_lexpr::from_reader::<Vec<u32>>(text.as_bytes()).ok(), serde_lexpr::from_str::<Vec<u32>>(text).ok(), serde_lexpr::from_slice::<Vec<u32>>(text.as_bytes()).ok()] {
+            if r.is_none() { return Some(format!("serde_lexpr reading {:?} fails", text)); }
+        }
+    }
+    match serde_lexpr::from_str::<Vec<u32>>("(1 2") { Err(e) if e.classify() == Category::Eof => {}, o => return Some(format!("serde_lexpr::from_str(\"(1 2\"): {:?}", o.map_err(|e| e.classify()))) }
+    match serde_lexpr::from_str::<Vec<u32>>("(1 2))") { Err(e) if e.classify() == Category::Syntax => {}, o => return Some(format!("serde_lexpr::from_str(\"(1 2))\"): {:?}", o.map_err(|e| e.classify()))) }
+    match serde_lexpr::from_str::<Vec<u32>>("(1 a)") { Err(e) if e.classify() == Category::Data => {}, o => return Some(format!("serde_lexpr::from_str(\"(1 a)\"): {:?}", o.map_err(|e| e.classify()))) }
+    None
+}
+#[cfg(not(feature = "with-serde"))]
+fn serde_case() -> Option<String> { None }
+
 fn check(case: &str) -> Option<String> {
+    if case.starts_with("serde:") { return serde_case(); }
     let p: Vec<&str> = case.split(':').collect();
     let owned: String;
     let text: &str = if p[0].ends_with('x') { owned = String::from_utf8(crate::unhex(p.get(1)?)).ok()?; &owned } else { *corpus().get(p.get(1)?.parse::<usize>().ok()?)? };
